@@ -460,9 +460,35 @@ def uvalues(r, rng, k):
     return sorted(v for v in pick if in_r(r, v))
 
 
+FLPAIRS = [(0, 1), (1, 0), (2, 1), (3, 4), (5, 0)]
+
+
 def gen_urep(tier, rng):
     out = []
     quick = tier == "quick"
+    z = "0 0 0 1 1 64 1 1 64"
+    for t in ("u_pq", "u_pqovf", "u_ctor", "u_lcmwrap"):
+        out.append(f"{t} {z}")
+    # float / long double representations (compared with std::chrono inside the harness): values whose images stay far
+    # inside int64 (a float -> int64 conversion out of range is undefined)
+    for (i, j) in FLPAIRS:
+        (N1, D1), (N2, D2) = UPER[i], UPER[j]
+        F = Fraction(N1 * D2, D1 * N2)
+        xs = list(FBASE) + [rng.uniform(-1e6, 1e6), rng.uniform(-10, 10), float(rng.randint(-10**6, 10**6))]
+        for k in (-2, -1, 0, 1, 2, 1000):
+            for num in (2 * k + 1, 2 * k):
+                x = Fraction(num, 2) / F
+                if Fraction(float(x)) == x:
+                    xs += [float(x), math.nextafter(float(x), math.inf), math.nextafter(float(x), -math.inf)]
+        ys = [1.0, -0.5, 3.0, 1000.0, 7.25, rng.uniform(-100, 100)]
+        if quick:
+            xs = xs[::2]
+            ys = ys[::2]
+        for x in xs:
+            if abs(Fraction(x) * F) >= 2**40 or abs(x) >= 2**40:
+                continue
+            for y in ys:
+                out.append(f"u_fl {i} {j} 0 {N1} {D1} 64 {N2} {D2} 64 {dbits(x)} {dbits(y)}")
     for i in range(len(UPER)):
         for j in range(len(UPER)):
             for a in range(8):
